@@ -43,6 +43,8 @@ class FnContract:
     consts: Dict[str, Any] = field(default_factory=dict)
     ghost: Dict[str, str] = field(default_factory=dict)       # ghost inputs (universally quantified)
     ghost_effects: Dict[str, int] = field(default_factory=dict)
+    max_paths: int = 4000          # give up (exit 2) beyond this many paths
+    batch_post: bool = False       # emit the conjunction of the postconditions as one obligation per path (instances with very many paths)
     case_split: Dict[str, str] = field(default_factory=dict)  # local -> clause assumed right after it is assigned: this contract
     #                                                           instance covers that case only (the doc states which cases the instances cover)
     record_as: Optional[str] = None   # ghost call log name: callers' postconditions may use ncalls()/called_with()
@@ -209,3 +211,11 @@ class Registry:
         for g in ["snoc"] + list(c.spec_modules):
             out.extend(self.axiom_groups.get(g, []))
         return out
+
+
+def alias_loops_by_order(c: "FnContract"):
+    """a contract that names ALL loops of its function by header text, in source order, also answers to their ordinals: an edit
+    of a loop header then still meets the loop's contract (and fails its obligations) instead of leaving it without one"""
+    for ordinal, head in enumerate([k for k in list(c.loops) if isinstance(k, str)]):
+        c.loops.setdefault(ordinal, c.loops[head])
+    return c
